@@ -2116,7 +2116,13 @@ class Measurement:
             return NotImplemented
 
         measurand = self.measurand * other.measurand
-        uncertainty = self._join_uncertainties(measurand, other)
+        # sigma**2 = (y * sigma_x)**2 + (x * sigma_y)**2, also right for zero measurands
+        uncertainty = math.sqrt(
+            _add(
+                _pow(_mul(other.measurand.magnitude, self.uncertainty.magnitude), 2),
+                _pow(_mul(self.measurand.magnitude, other.uncertainty.magnitude), 2),
+            )
+        )
         return Measurement(measurand, uncertainty)
 
     __rmul__ = __mul__
@@ -2129,27 +2135,20 @@ class Measurement:
             return NotImplemented
 
         measurand = self.measurand / other.measurand
-        uncertainty = self._join_uncertainties(measurand, other)
-        return Measurement(measurand, uncertainty)
-
-    def _join_uncertainties(self, measurand: Quantity, other: "Measurement") -> float:
-        return math.sqrt(
-            _mul(
-                _pow(measurand.magnitude, 2),
-                (
-                    _add(
-                        _div(
-                            _pow(self.uncertainty.magnitude, 2),
-                            _pow(self.measurand.magnitude, 2),
-                        ),
-                        _div(
-                            _pow(other.uncertainty.magnitude, 2),
-                            _pow(other.measurand.magnitude, 2),
-                        ),
-                    )
+        # sigma**2 = (sigma_x / y)**2 + (x * sigma_y / y**2)**2, also right for x == 0
+        uncertainty = math.sqrt(
+            _add(
+                _pow(_div(self.uncertainty.magnitude, other.measurand.magnitude), 2),
+                _pow(
+                    _div(
+                        _mul(self.measurand.magnitude, other.uncertainty.magnitude),
+                        _pow(other.measurand.magnitude, 2),
+                    ),
+                    2,
                 ),
             )
         )
+        return Measurement(measurand, uncertainty)
 
     def __rtruediv__(self, other: Union["Measurement", Quantity]) -> "Measurement":
         if isinstance(other, Quantity):
